@@ -113,15 +113,27 @@ def error_class(name):
 # the real code
 
 
-class AppExc(Exception):
+class _HostileText:
+    """application exceptions cannot be printed: str() and repr() of them raise.  The server must
+    contain an application failure without formatting the exception object itself (the logging and
+    traceback modules cope with that; '%s' % exc inside an except block does not)"""
+
+    def __str__(self):
+        raise RuntimeError("str() of an application exception")
+
+    def __repr__(self):
+        raise RuntimeError("repr() of an application exception")
+
+
+class AppExc(_HostileText, Exception):
     pass
 
 
-class AppOS(ConnectionResetError):   # an OSError subclass raised by the application
+class AppOS(_HostileText, ConnectionResetError):   # an OSError subclass raised by the application
     pass
 
 
-class AppBase(BaseException):
+class AppBase(_HostileText, BaseException):
     pass
 
 
@@ -1778,6 +1790,25 @@ def framing_cases(rng, tier):
         conn = rng.choice(CONNS)
         out.append((("framing", status, kind[0]), mk_case(call, kind=kind, steps=[Y(x) for x in chunks],
                                                         version=version, conn=conn, head=head, **extra)))
+    # start_response called late (after an empty first chunk) or re-called with exc_info after an empty
+    # first chunk, with declared lengths that differ between the calls: the length that counts for the
+    # too-few-bytes decision is the one in force when the iteration ends
+    body5 = b"12345"
+    for kind in (("gen",), ("sized", 2)):
+        for version in ("1.0", "1.1"):
+            for conn in (None, "keep-alive", "close"):
+                for cl1, cl2 in ((1000, 5), (5, 1000), (None, 1000), (None, 5), (5, None), (1000, None), (5, 5), (3, 5)):
+                    h1 = [("Content-Length", str(cl1))] if cl1 is not None else []
+                    h2 = [("Content-Length", str(cl2))] if cl2 is not None else []
+                    ex = {"has_close": False} if kind[0] == "sized" else {}
+                    # replaced: call 1, an empty chunk, then the exc_info re-call just before the body
+                    out.append((("replaced call after an empty chunk", cl1, cl2, kind[0], version, conn),
+                                mk_case([S("200 OK", h1)], kind=kind, steps=[Y(b""), Y(body5, [S("200 OK", h2, "XE")])],
+                                        version=version, conn=conn, **ex)))
+                    # late: no call before the first (empty) chunk
+                    out.append((("late call after an empty chunk", cl2, kind[0], version, conn),
+                                mk_case([], kind=kind, steps=[Y(b"", []), Y(body5, [S("200 OK", h2)])],
+                                        version=version, conn=conn, **ex)))
     # error responses produced directly from request.error
     for cls, body in (("BadRequest", "Invalid header"), ("RequestEntityTooLarge", "exceeds max_body"),
                       ("ServerNotImplemented", "nope")):
